@@ -68,6 +68,10 @@ pub enum HStep {
 	ReturnNone,
 	ReturnErr,
 	ReturnMsg,
+	/// reject() and return an error closing value in one go (no scheduling point in between)
+	RejectThenReturnErr,
+	/// drop the pending sink and return a closing message in one go
+	DropPendingThenReturnMsg,
 }
 
 #[derive(Clone, Debug, PartialEq)]
@@ -314,6 +318,20 @@ fn methods(ctx: Ctx) -> Methods {
 						*s = None;
 						sched::log(format!("{tag}:drop-sink:{i}"));
 					}
+				}
+				HStep::RejectThenReturnErr => {
+					if let Some(p) = pending.take() {
+						p.reject(ErrorObjectOwned::owned::<()>(4001, "rejected", None)).await;
+						sched::log(format!("{tag}:reject"));
+					}
+					sched::log(format!("{tag}:return:err"));
+					return SubscriptionCloseResponse::NotifErr("handler-error".into());
+				}
+				HStep::DropPendingThenReturnMsg => {
+					drop(pending.take());
+					sched::log(format!("{tag}:drop-pending"));
+					sched::log(format!("{tag}:return:msg"));
+					return SubscriptionCloseResponse::Notif(SubscriptionMessage::from(serde_json::value::to_raw_value(&"final").unwrap()));
 				}
 				HStep::ReturnNone => {
 					sched::log(format!("{tag}:return:none"));
